@@ -95,8 +95,11 @@ def run(R):
         cases = parts[0] + parts[1]
         mut = parts[2] + parts[3]
     else:
-        cases = gen(R, 5, False, name="recbfs5")
-        mut = gen(R, 12, True, simulate=1500, name="recmut")
+        tiny = ["a", "x=1", "!", "{", "}", "for", "case", "esac", "in", "if", "then", "fi", "while", "do", "done", ";", "&&", "|", ";;", "(", ")", "\n", ">"]
+        parts = R.parallel([lambda: gen(R, 4, False, name="recbfs4"), lambda: gen(R, 5, False, name="recbfs5", alpha=tiny),
+                            lambda: gen(R, 12, True, simulate=600, name="recmut")])
+        cases = parts[0] + parts[1]
+        mut = parts[2]
         mut += gen(R, 20, True, name="recbases", bases=BASES)
     # unterminated here-documents (outside the token alphabet of ShellRec): must be rejected
     for src in ("cat <<E", "cat <<E; a", "a $(cat <<E)\n", "cat <<E\n", "cat <<E\nx", "cat <<E <<F\nx\nE\n", "{ cat <<E\n}"):
